@@ -166,6 +166,30 @@ func lookupHelper(g *ssa.Function) (field string, keyParam int, ok bool) {
 			}
 		}
 	})
+	if !good {
+		// the look-up on behalf of a request: (entry, ..., err) with the entry found, or nil and an error
+		nHit, all := 0, true
+		eachInstr(g, func(in ssa.Instruction) {
+			ret, isRet := in.(*ssa.Return)
+			if !isRet || isRecoverReturn(ret) {
+				return
+			}
+			vals := retVals(ret)
+			if len(vals) < 2 || vals[len(vals)-1].Type().String() != "error" {
+				all = false
+				return
+			}
+			v0 := resolveVal(vals[0])
+			if e0, ok0 := v0.(*ssa.Extract); ok0 && e0.Tuple == ssa.Value(lk) && e0.Index == 0 {
+				nHit++
+				return
+			}
+			if !isNilConst(v0) {
+				all = false
+			}
+		})
+		good = all && nHit > 0
+	}
 	f, _ := trackedMapField(lk.X)
 	return f, idx, good
 }
@@ -316,7 +340,7 @@ func checkC12(c *Ctx, r *Report) {
 				} else {
 					found := false
 					for _, d := range decs {
-						if sa := acctSizeArg(d, "subSize"); sa != nil && sizeFromOld(sa, old) && guardedByTruth(f, d, okv, true) {
+						if sa := acctSizeArg(d, "subSize"); sa != nil && sizeFromOld(sa, old) && acctGuarded(f, d, "subSize", okv, true) {
 							found = true
 							if ex := exitsAvoiding(u, isInstr(d), pruneTruth(f, okv, true)); len(ex) > 0 {
 								problems = append(problems, "when the key existed, some path from the insert to "+c.InstrPos(ex[0])+" skips the subtraction of the replaced entry's size")
@@ -330,7 +354,7 @@ func checkC12(c *Ctx, r *Report) {
 						problems = append(problems, "entry count never incremented")
 					}
 					for _, i := range incs {
-						if !guardedByTruth(f, i, okv, false) {
+						if !acctGuarded(f, i, "incEntries", okv, false) {
 							problems = append(problems, "incrementCacheEntries at "+c.InstrPos(i)+" also runs when the key already existed")
 						}
 					}
@@ -352,6 +376,12 @@ func checkC12(c *Ctx, r *Report) {
 			for _, a := range adds {
 				if sa := acctSizeArg(a, "addSize"); sa != nil && sizeStore != nil && unconv(sa) == unconv(sizeStore) {
 					okAdd = true
+				}
+				// ... or read back from the very object that was put into the map (install(key, tmpName, meta) books meta.Size)
+				if sa := acctSizeArg(a, "addSize"); sa != nil {
+					if root, pth := fieldPath(unconv(sa)); len(pth) > 0 && pth[len(pth)-1] == "Size" && sameVal(root, u.Value) {
+						okAdd = true
+					}
 				}
 			}
 			if !okAdd {
@@ -672,6 +702,13 @@ func checkCounterOwnership(c *Ctx, r *Report, li *LockInfo) {
 						} else {
 							r.Fail("C12.R3", key+" store", c.InstrPos(x), "byteSize overwritten outside the constructor")
 						}
+					case *ssa.MakeClosure:
+						// the method value c.byteSize.Get handed on as a func() int64: a reader
+						if g, isF := x.Fn.(*ssa.Function); isF && len(x.Bindings) == 1 && x.Bindings[0] == ssa.Value(fa) && strings.HasSuffix(fnKey(unwrapSynthetic(g)), "atomics.Int64).Get") {
+							r.OkT("C12.R3", key+" via Get (method value)", c.InstrPos(x), "read-only")
+						} else {
+							r.Fail("C12.R3", key+" other", c.InstrPos(ref), "byteSize address escapes: "+ref.String())
+						}
 					default:
 						r.Fail("C12.R3", key+" other", c.InstrPos(ref), "byteSize address escapes: "+ref.String())
 					}
@@ -763,4 +800,17 @@ func fromGetCacheSize(v ssa.Value) bool {
 		}
 		return false
 	})
+}
+
+// acctGuarded: the accounting effect `kind` of call happens only when the bool v has the given truth: the call itself
+// sits on that edge, or it is a call of a choosing composite helper that is handed v and performs the effect for
+// that value of it.
+func acctGuarded(f *ssa.Function, call *ssa.Call, kind string, v ssa.Value, truth bool) bool {
+	if guardedByTruth(f, call, v, truth) {
+		return true
+	}
+	if a, t, has := acctGuardOfCall(call, kind); has && sameVal(a, v) && t == truth {
+		return true
+	}
+	return false
 }
